@@ -432,6 +432,29 @@ def log(p):
     return P(App("log", (p,)))
 
 
+def outer_normal(p):
+    """x.unsqueeze(-1) * y.unsqueeze(-2) inside a monomial (also inside the components of a stack): the outer product over the last
+    axes, in the normal form of einsum('...j,...k->...jk')."""
+    if p is None:
+        return None
+    p = P(p)
+    at = p.single_atom()
+    if at is not None and isinstance(at, App) and at.op == "stack0":
+        return stack0(*[outer_normal(c) for c in at.args])
+    out = ZERO
+    changed = False
+    for mono, c in p.terms.items():
+        left = [(a, pw) for a, pw in mono if isinstance(a, App) and a.op == "unsq" and len(a.args) == 3 and a.args[1] == -1 and pw == 1]
+        right = [(a, pw) for a, pw in mono if isinstance(a, App) and a.op == "unsq" and len(a.args) == 3 and a.args[1] == -2 and pw == 1]
+        if len(left) == 1 and len(right) == 1 and left[0][0].args[2] == right[0][0].args[2]:
+            rest = tuple(x for x in mono if x not in (left[0], right[0]))
+            out = out + Poly({rest: c}) * app("einsum2", "...j,...k->...jk", left[0][0].args[0], right[0][0].args[0]) if rest else out + c * app("einsum2", "...j,...k->...jk", left[0][0].args[0], right[0][0].args[0])
+            changed = True
+        else:
+            out = out + Poly({mono: c})
+    return out if changed else p
+
+
 def complex_split(p):
     """(re, im) of a polynomial in which the imaginary unit is the literal symbol `lit:1j` (i^2 = -1)."""
     p = P(p)
@@ -660,6 +683,12 @@ def _structural(op, args):
                 for x, pw in mono:
                     out = out * powq(app("sq", P(x), *args[1:]), pw)
                 return out
+    if op == "unsq" and len(args) == 3 and isinstance(args[1], int) and args[1] < 0 and isinstance(args[2], int):
+        # a new axis counted from the end goes through a stack along the leading axis: each component gets it (one rank lower)
+        a = P(args[0])
+        at = a.single_atom()
+        if at is not None and isinstance(at, App) and at.op == "stack0":
+            return stack0(*[app("unsq", c, args[1], args[2] - 1) for c in at.args])
     if op == "idx0":
         a = P(args[0])
         at = a.single_atom()
